@@ -205,6 +205,51 @@ def r07_1(prog, rule, tab):
     rule.note("uses: %s" % stats)
 
 
+def r07_5(prog, tab):
+    """Sibling encoders of the same interface agree on when a value is rejected because of its constraint."""
+    r = Rule("R07.5", "sibling encoders reject the same constraint violations (cross-check of the failing conditions on the constraint)", floor=1)
+    for grp in tab.get("sibling_groups", []):
+        fs = [prog.func(n) for n in grp["functions"]]
+        if any(f is None for f in fs):
+            continue
+        about = set(grp["about_vars"])
+        sets = []
+        for f in fs:
+            cl = make_classifier(f)
+            out = {}
+            for b in f.blocks.values():
+                if not b.term or "cond" not in b.term or len(b.succ) < 2:
+                    continue
+                ct = b.term["cond"].get("full_tree") or b.term["cond"]["tree"]
+                if not ({n[1].split("@")[0] for n in walk(ct) if n[0] == "var"} & about):
+                    continue
+                for idx, s_ in enumerate(b.succ):
+                    if s_ is None:
+                        continue
+                    kinds = set()
+                    for rb in f.reachable_from([s_]):
+                        for i, e in enumerate(f.blocks[rb].ev):
+                            if e["k"] == "return":
+                                kinds.add(cl(f.blocks[rb], i, e))
+                    if kinds == {"fail"}:
+                        out[(guards.canon(b.term["cond"]["tree"]), idx)] = b.term.get("line")
+            sets.append(out)
+        allc = set()
+        for o in sets:
+            allc |= set(o)
+        for c in sorted(allc):
+            have = [f.name for f, o in zip(fs, sets) if c in o]
+            key = "reject-if:%s:%s" % (c[0], "true" if c[1] == 0 else "false")
+            if len(have) == len(fs):
+                r.ok(fs[0], key, "all of %s reject on this condition" % ", ".join(f.name for f in fs), sets[0].get(c))
+            else:
+                miss = [f for f in fs if f.name not in have]
+                for f in miss:
+                    r.bad(f, key, "%s rejects the value when `%s` is %s, its sibling %s does not: a value violating the constraint is encoded "
+                                  "instead of failing" % (", ".join(have), c[0], "true" if c[1] == 0 else "false", f.name), f.line)
+    return r
+
+
 def run_config(prog, cfg):
     tab = load_tables("c07")
     ns = load_tables("nullslot")
@@ -221,10 +266,13 @@ def run_config(prog, cfg):
     r4 = Rule("R07.4", "asn_application.c wrappers: bounded copy into the caller's buffer, size counted on every path, "
                        "failed callback becomes errno EIO", floor=12)
     r07_4(prog, r4)
-    for r in (r1, r2, r3, r4):
+    r5 = r07_5(prog, tab)
+    if cfg != "default":
+        r5.floor = 0
+    for r in (r1, r2, r3, r4, r5):
         for i in r.insts:
             i.config = cfg
-    return [r1, r2, r3, r4]
+    return [r1, r2, r3, r4, r5]
 
 
 def run(ctx):
@@ -303,6 +351,20 @@ def r07_4(prog, rule):
                     rule.ok(f, "memcpy:overflow-edge", msg_ok, ce["line"])
                 else:
                     rule.bad(f, "memcpy:overflow-edge", "the copy into the buffer is reachable on the edge where computed_size + size exceeds buffer_size", ce["line"])
+        if grows:
+            # asn_encode_to_new_buffer stores the terminator at buffer[computed_size]: after every callback
+            # computed_size must be strictly below buffer_size, so the no-grow edge must mean sum < buffer_size
+            for t, oi in tests:
+                tt = strip_casts(t.term["cond"]["tree"])
+                op = tt[1]
+                l_is_sum = any(_is_field(n, "computed_size") for n in walk(tt[2]))
+                strict_fit = (op == ">=" and l_is_sum) or (op == "<=" and not l_is_sum) or (op == "<" and l_is_sum and oi == 1) or (op == ">" and not l_is_sum and oi == 1)
+                # oi is the overflow edge; the other edge is "fits": it must exclude equality
+                if op in (">=",) and l_is_sum or op in ("<=",) and not l_is_sum:
+                    rule.ok(f, "spare-byte", "the buffer is grown when computed_size + size reaches buffer_size: one byte always remains for the terminator", t.term["line"])
+                else:
+                    rule.bad(f, "spare-byte", "the buffer is grown only when computed_size + size exceeds buffer_size (`%s`): an output that exactly fills the "
+                                            "buffer leaves no room for the terminator asn_encode_to_new_buffer stores at buffer[computed_size]" % tree_text(tt), t.term["line"])
         for b, i, e in f.returns():
             c = e.get("expr", {}).get("const")
             if c == 0:
